@@ -1207,7 +1207,8 @@ class Sum(Expression):
         return self
 
     def _get_key(self):  # type:ignore
-        return 1, *self.expression._get_key()  # type:ignore
+        ranges = tuple(sorted(r.name for r in self.ranges))
+        return 1, self.expression._get_key(), ranges
 
     def _get_sorted_ranges(self) -> Sequence[Variable]:
         return sorted(self.ranges, key=attrgetter("name"))
